@@ -86,6 +86,10 @@ MEMBERS = {
     "global_read": (["gr = G + a"], ["K.gr"]),
     "closure_method": (["def outerm(self):", "    t = a", "    def inner():", "        nonlocal t", "        t += b", "        return t", "    return inner()"], ["K().outerm()"]),
     "docstring": (["'''doc'''", "dz = a"], ["K.dz"]),
+    # defaults that read an EARLIER class attribute (evaluated in the class body): positional and
+    # keyword-only, of lambdas and of defs
+    "lambda_defaults_classvar": (["kv = a", "lamk = lambda self, *, u=kv: ('k', u)", "lamp = lambda self, u=kv, *r, w=kv + 1: ('p', u, w)"], ["K().lamk()", "K().lamp()", "K().lamp(b, w=0)", "Sub().lamk(u=b)"]),
+    "def_defaults_classvar": (["dv2 = a", "def mk2(self, p=dv2, *, q=dv2 + 1, **kw):", "    return (p, q, sorted(kw))"], ["K().mk2()", "K().mk2(b, q=0, z=1)"]),
     # private names (two leading underscores): mangled to _K__name inside the class body and its methods
     "private_attr": (["__pv = a", "def getp(self):", "    return (self.__pv, K.__pv)"], ["K().getp()", "sorted(k for k in vars(K) if k.endswith('__pv'))", "Sub().getp()", "K._K__pv"]),
     "private_method": (["def __hm(self, v, __q=1):", "    return v + a + __q", "def callp(self):", "    def inner():", "        return self.__hm(b)", "    return (inner(), (lambda: self.__hm(0))())"], ["K().callp()", "hasattr(K, '_K__hm')", "hasattr(K, '__hm')"]),
